@@ -10,12 +10,15 @@ from pyvc.engine import Contract
 from pyvc.engine import Program
 
 ASSUMPTIONS = ASSUMED_EXTERNALS + [
-    'threads are modelled as effect sinks whose is_alive() is false (the '
-    'join / dummy-socket branches of handle_shutdown are not verified)',
+    'threads are modelled as effect sinks; is_alive() of the outgoing thread '
+    'is an arbitrary boolean (false right after a join), that of the '
+    'listener thread is false (the dummy-socket branch of '
+    'DetachedServer.handle_shutdown is not verified)',
     'what the operating system does when a process dies (EOF on the peer '
     'connection) is assumed, not verified',
     '"in bounded time" is not decided: only that the shutdown path, once '
-    'entered, closes every connection',
+    'entered, closes every connection and never waits for the outgoing '
+    'queue to drain (an effect frame, a necessary condition)',
 ]
 
 ALL_EMP_DOWN = '''forall(lambda k: implies(
